@@ -150,6 +150,14 @@ def evaluate(t, env, dialect="sqlite"):
         return ev(t.recv)  # a binary / case-sensitive collation: comparison by code point, as on Polars
     if t.recv is None and lname == "literal" and t.args:
         return ev(t.args[0])
+    if t.recv is None and "func" in t.fn and lname in ("abs", "trunc", "round", "floor", "ceil", "date", "datetime", "strftime", "lower", "upper"):
+        # scalar functions that return NULL when an argument is NULL (all engines); only `abs` is modelled on values
+        vals = [ev(a) for a in t.args]
+        if any(v is NULL for v in vals):
+            return NULL
+        if lname == "abs" and isinstance(vals[0], (int, float)):
+            return abs(vals[0])
+        raise Unknown(f"SQL function {t.fn} on non-null values")
     raise Unknown(f"SQL function {t.fn}")
 
 
